@@ -181,6 +181,37 @@ theorem resolve_call (ident args : Str) (hne : ident ≠ []) (hp : '(' ∉ ident
 example : resolve "g('a|b')".toList = "g('a|b')".toList ∧ resolve "trim(1)".toList = "filters.trim(1)".toList := by
   decide
 
+/-! ## the built-in names are not template variables -/
+
+/-- the flag names the property lists (`decode` is the identifier of `decode.<encoding>`) -/
+def flagNames : List Str :=
+  [['h'], ['x'], ['u'], ['t', 'r', 'i', 'm'], ['e', 'n', 't', 'i', 't', 'y'], ['s', 't', 'r'],
+   ['u', 'n', 'i', 'c', 'o', 'd', 'e'], ['n'], ['d', 'e', 'c', 'o', 'd', 'e']]
+
+/-- The second role of the regenerated `DEFAULT_ESCAPES`: its keys are subtracted from the identifiers of a
+filter list before those are demanded from the context.  Every flag the property lists is a key (checked
+against the regenerated table – removing an entry breaks this obligation), hence for ALL filter lists no context
+lookup is generated for a flag (no `NameError` under `strict_undefined`), `decode.<enc>` contributes exactly the
+identifier `decode`, and every other identifier IS demanded from the context (it denotes the callable of that
+name visible to the template). -/
+theorem builtin_flags_are_not_context_names :
+    (∀ k ∈ flagNames, isEscapeKey k = true) ∧
+    (∀ (ids : List Str) (k : Str), k ∈ flagNames → k ∉ contextNames ids) ∧
+    (∀ enc : Str, headIdent (decodeDot ++ enc) = ['d', 'e', 'c', 'o', 'd', 'e']) ∧
+    (∀ (ids : List Str) (k : Str), k ∈ ids → isEscapeKey k = false → k ∈ contextNames ids) := by
+  have hkeys : ∀ k ∈ flagNames, isEscapeKey k = true := by decide
+  refine ⟨hkeys, ?_, ?_, ?_⟩
+  · intro ids k hk hmem
+    have := (List.mem_filter.mp hmem).2
+    simp [hkeys k hk] at this
+  · intro enc
+    simp [headIdent, decodeDot, isIdentChar, List.takeWhile]
+  · intro ids k hk hne
+    exact List.mem_filter.mpr ⟨hk, by simp [hne]⟩
+
+example : contextNames ["decode".toList, "f".toList, "h".toList, "ns".toList, "n".toList] = ["f".toList, "ns".toList] := by
+  decide
+
 /-! ## evaluation -/
 
 /-- The emitted text is the rendering of the term `f_k(…f₁(target))`; evaluating that term call-by-value
